@@ -1,2 +1,11 @@
-import Osmt
-def main : IO Unit := IO.println "osmt-model"
+import Driver.Smt
+/-! `osmt-model <mode> <file>`: line-protocol driver around the executable models and kernels. -/
+def main (args : List String) : IO UInt32 := do
+  match args with
+  | ["smt", path] =>
+    let txt ← IO.FS.readFile path
+    IO.println (Driver.runSmt (txt.splitOn "\n"))
+    return 0
+  | _ =>
+    IO.eprintln "usage: osmt-model smt <file>"
+    return 2
